@@ -416,7 +416,12 @@ func (r *ComboRoute) route(fn func(string, ...Handler) *Route, method string, ha
 	}
 	r.added[method] = struct{}{}
 
-	r.lastRoute = fn(r.routePath, append(r.handlers, handlers...)...)
+	// Allocate a new slice to avoid sharing the backing array of the common
+	// "handlers" between methods when it has spare capacity.
+	hs := make([]Handler, 0, len(r.handlers)+len(handlers))
+	hs = append(hs, r.handlers...)
+	hs = append(hs, handlers...)
+	r.lastRoute = fn(r.routePath, hs...)
 	return r
 }
 
